@@ -19,11 +19,11 @@ RULE = ("seven generated families against the real CategoricalClassification met
         "exercises its clause (adds a column / has a binding cut point / flips at least one cell / drops at least one row); "
         "distinct = distinct canonical cases")
 THEOREMS = ["C20_corr", "C20_corr_tan", "C20_corr_construction", "C20_dup", "C20_dup_info", "C20_dup_prefix_refuted", "C20_combo",
-            "C20_combo_denote", "C20_corr_info", "C20_info_exact", "C20_info_old_refuted", "C20_labels_mono", "C20_labels_count",
+            "C20_corr_info", "C20_info_exact", "C20_info_old_refuted", "C20_labels_mono", "C20_labels_count",
             "C20_labels_prop", "C20_labels_class_sizes", "C20_labels_ndarray_note", "C20_noise_cat", "C20_noise_cat_check_sound",
-            "C20_noise_missing", "C20_noise_missing_check_sound", "C20_downsample", "C20_downsample_check_sound",
-            "C20_noise_cat_needs_standard_labels"]
-REAL_THEOREMS = {"C20_corr", "C20_corr_tan", "C20_corr_construction", "C20_combo_denote"}
+            "C20_noise_missing", "C20_noise_missing_check_sound", "C20_noise_cat_needs_standard_labels", "C20_downsample",
+            "C20_downsample_check_sound"]
+REAL_THEOREMS = {"C20_corr", "C20_corr_tan", "C20_corr_construction"}
 
 HEADER = ("From Coq Require Import List ZArith QArith.\nFrom Outrank Require Import Synth.Derived.\n"
           "Import ListNotations.\nOpen Scope Z_scope.")
